@@ -9,17 +9,31 @@ open Stub Gen.StubHolder
 theorem wadd_eq {a b : Nat} (h : a + b < 18446744073709551616) : wadd a b = a + b := by
   unfold wadd; exact Nat.mod_eq_of_lt h
 
-/-- first check: taken iff the request does not fit behind the loaded offset -/
-theorem gen_check1 (p l mi ma : Nat) (h : p + l < 18446744073709551616) :
-    check1Fails p l mi ma = decide (ma < p + l) := by
+/-- first check, safety direction: when the error branch is NOT taken the request fits behind the loaded offset.
+    (Deliberately one-directional: a more conservative comparison in holder.go still proves.) -/
+theorem gen_check1_safe (p l mi ma : Nat) (h : p + l < 18446744073709551616) :
+    check1Fails p l mi ma = false → p + l ≤ ma := by
+  intro hc
+  unfold check1Fails wadd at hc
+  have e := Nat.mod_eq_of_lt h
+  simp at hc
+  omega
+
+/-- first check, exhaustion direction: a request that does not fit behind the loaded offset is refused -/
+theorem gen_check1_refuses (p l mi ma : Nat) (h : p + l < 18446744073709551616) :
+    ma < p + l → check1Fails p l mi ma = true := by
+  intro hc
   unfold check1Fails wadd
   have e := Nat.mod_eq_of_lt h
-  exact decide_eq_decide.mpr (by omega)
+  simp
+  omega
 
-/-- second check: taken iff the offset after the add is beyond the reserve -/
-theorem gen_check2 (p n l mi ma : Nat) : check2Fails p n l mi ma = decide (ma < n) := by
-  unfold check2Fails
-  exact decide_eq_decide.mpr (by omega)
+/-- second check, safety direction: when the error branch is NOT taken the new offset is inside the reserve -/
+theorem gen_check2_safe (p n l mi ma : Nat) : check2Fails p n l mi ma = false → n ≤ ma := by
+  intro hc
+  unfold check2Fails at hc
+  simp at hc
+  omega
 
 /-- the length of the returned slice is the requested length -/
 theorem gen_len (p n l mi ma : Nat) : sliceLen p n l mi ma = l ∧ sliceCap p n l mi ma = l := by
@@ -53,15 +67,22 @@ theorem gen_init (offset size : Nat) (h : offset + size < 18446744073709551616) 
 
 theorem acquireFromHolder_spec (off min max len : Nat) (h1 : off ≤ max) (h2 : max < 9223372036854775808)
     (hl : len < 9223372036854775808) :
-    (off + len ≤ max → acquireFromHolder off min max len = (off + len, .ok off len)) ∧
+    (acquireFromHolder off min max len = (off, .err) ∨
+      (off + len ≤ max ∧ (acquireFromHolder off min max len = (off + len, .ok off len) ∨
+                          acquireFromHolder off min max len = (off + len, .err)))) ∧
     (max < off + len → acquireFromHolder off min max len = (off, .err)) := by
   have hw : off + len < 18446744073709551616 := by omega
   unfold acquireFromHolder
-  simp only [gen_check1 off len min max hw, gen_check2, gen_ret_seq off len min max hw, (gen_len _ _ _ _ _).1,
-    wadd_eq hw, decide_eq_true_eq]
-  constructor
-  · intro h; rw [if_neg (by omega), if_neg (by omega)]
-  · intro h; rw [if_pos (by omega)]
+  simp only [wadd_eq hw, gen_ret_seq off len min max hw, (gen_len _ _ _ _ _).1]
+  cases c1 : check1Fails off len min max
+  · have f1 := gen_check1_safe off len min max hw c1
+    simp only [Bool.false_eq_true, if_false]
+    refine ⟨Or.inr ⟨f1, ?_⟩, fun h => by omega⟩
+    cases c2 : check2Fails off (off + len) len min max
+    · left; simp only [Bool.false_eq_true, if_false]
+    · right; simp only [if_true]
+  · simp only [if_true]
+    exact ⟨Or.inl trivial, fun _ => trivial⟩
 
 /-- the five micro-steps of one requester alone are `acquireFromHolder` -/
 theorem run_alone (off min max len : Nat) :
@@ -81,15 +102,15 @@ theorem acquire_cases (mm : Mmap) (off min max len : Nat) (h1 : off ≤ max) (h2
     (hl : len < 9223372036854775808) :
     (∃ a, mm = .fresh a ∧ acquire mm off min max len = (off, some ⟨a, len, typeMMap⟩)) ∨
     (mm = .fail ∧ off + len ≤ max ∧ acquire mm off min max len = (off + len, some ⟨off, len, typeHolder⟩)) ∨
-    (mm = .fail ∧ max < off + len ∧ acquire mm off min max len = (off, none)) := by
+    (mm = .fail ∧ ∃ o, off ≤ o ∧ o ≤ max ∧ acquire mm off min max len = (o, none)) := by
   cases mm with
   | fresh a => left; exact ⟨a, rfl, rfl⟩
   | fail =>
     right
-    have sp := acquireFromHolder_spec off min max len h1 h2 hl
-    by_cases h : off + len ≤ max
-    · left; refine ⟨rfl, h, ?_⟩; simp only [acquire, sp.1 h]
-    · right; refine ⟨rfl, by omega, ?_⟩; simp only [acquire, sp.2 (by omega)]
+    rcases (acquireFromHolder_spec off min max len h1 h2 hl).1 with e | ⟨hfit, e | e⟩
+    · right; exact ⟨rfl, off, Nat.le_refl _, h1, by simp only [acquire, e]⟩
+    · left; exact ⟨rfl, hfit, by simp only [acquire, e]⟩
+    · right; exact ⟨rfl, off + len, by omega, hfit, by simp only [acquire, e]⟩
 
 theorem typ_ne : typeMMap ≠ typeHolder := by decide
 
@@ -109,7 +130,7 @@ theorem seq_inv (min max : Nat) (h2 : max < 9223372036854775808) :
     obtain ⟨len, mm⟩ := q
     have hlen : len < 9223372036854775808 := hl (len, mm) (List.mem_cons_self)
     have hrest : ∀ r ∈ rest, r.1 < 9223372036854775808 := fun r hr => hl r (List.mem_cons_of_mem _ hr)
-    rcases acquire_cases mm off min max len h1 h2 hlen with ⟨a, _, e⟩ | ⟨_, hfit, e⟩ | ⟨_, _, e⟩
+    rcases acquire_cases mm off min max len h1 h2 hlen with ⟨a, _, e⟩ | ⟨_, hfit, e⟩ | ⟨_, o, ho1, ho2, e⟩
     · have IH := ih off h1 hrest
       simp only [offSeq, runSeq, e, holderRegions, typ_ne, if_false]
       refine ⟨IH.1, IH.2.1, IH.2.2.1, ?_⟩
@@ -132,13 +153,14 @@ theorem seq_inv (min max : Nat) (h2 : max < 9223372036854775808) :
         rcases List.mem_cons.mp hq with rfl | hq
         · simp only [Option.some.injEq] at hsp; rw [← hsp]
         · exact IH.2.2.2 q hq sp hsp
-    · have IH := ih off h1 hrest
+    · have IH := ih o ho2 hrest
       simp only [offSeq, runSeq, e, holderRegions]
-      refine ⟨IH.1, IH.2.1, IH.2.2.1, ?_⟩
-      intro q hq sp hsp
-      rcases List.mem_cons.mp hq with rfl | hq
-      · simp at hsp
-      · exact IH.2.2.2 q hq sp hsp
+      refine ⟨⟨by omega, IH.1.2⟩, ?_, IH.2.2.1, ?_⟩
+      · intro r hr; have := IH.2.1 r hr; omega
+      · intro q hq sp hsp
+        rcases List.mem_cons.mp hq with rfl | hq
+        · simp at hsp
+        · exact IH.2.2.2 q hq sp hsp
 
 /-! ### every schedule of concurrent requesters -/
 
@@ -270,13 +292,13 @@ theorem stepTh_facts {B off min max : Nat} {t : Th} (hB : B < 922337203685477580
     intro c hc; simp at hc
   · -- check1
     have hlo : t.loaded + t.len < 18446744073709551616 := by omega
-    rw [gen_check1 _ _ _ _ hlo]
-    by_cases hf : max < t.loaded + t.len
-    · simp only [hf, decide_true, if_true, weight, claim, thOk]
-      refine ⟨by omega, by omega, ⟨hl, Or.inl trivial⟩, ?_⟩
-      intro c hc; simp at hc
-    · simp only [hf, decide_false, Bool.false_eq_true, if_false, weight, claim, thOk]
+    cases c1 : check1Fails t.loaded t.len min max
+    · have hf := gen_check1_safe _ _ _ _ hlo c1
+      simp only [Bool.false_eq_true, if_false, weight, claim, thOk]
       refine ⟨by omega, by omega, ⟨hl, ok.1, by omega, by omega, by omega⟩, ?_⟩
+      intro c hc; simp at hc
+    · simp only [if_true, weight, claim, thOk]
+      refine ⟨by omega, by omega, ⟨hl, Or.inl trivial⟩, ?_⟩
       intro c hc; simp at hc
   · -- add
     have hlo : off + t.len < 18446744073709551616 := by omega
@@ -287,14 +309,14 @@ theorem stepTh_facts {B off min max : Nat} {t : Th} (hB : B < 922337203685477580
     simp only [Option.some.injEq] at hc
     right; rw [← hc]; simp only; omega
   · -- check2
-    rw [gen_check2]
-    by_cases hf : max < t.new
-    · simp only [hf, decide_true, if_true, weight, claim, thOk]
-      refine ⟨by omega, by omega, ⟨hl, Or.inl trivial⟩, ?_⟩
-      intro c hc; simp at hc
-    · simp only [hf, decide_false, Bool.false_eq_true, if_false, weight, claim, thOk, hpc]
+    cases c2 : check2Fails t.loaded t.new t.len min max
+    · have hf := gen_check2_safe _ _ _ _ _ c2
+      simp only [Bool.false_eq_true, if_false, weight, claim, thOk, hpc]
       refine ⟨by omega, by omega, ⟨hl, ok.1, by omega, by omega, by omega⟩, ?_⟩
       intro c hc; left; exact hc
+    · simp only [if_true, weight, claim, thOk]
+      refine ⟨by omega, by omega, ⟨hl, Or.inl trivial⟩, ?_⟩
+      intro c hc; simp at hc
   · -- ret
     have hn : t.new < 18446744073709551616 := by omega
     rw [gen_ret _ _ _ _ _ (by omega) hn, (gen_len _ _ _ _ _).1]
